@@ -2,6 +2,7 @@
 import ast
 
 from ..core import astutil as A
+from ..core import match as M
 from ..core.model import dotted
 
 META = {
@@ -19,32 +20,37 @@ def run(ctx):
     gi = P.func(MOD, "GlsaDirSet.generate_intersects_from_pkg_node")
     # ---- R1 slot inside the negation -------------------------------------------------------------------
     rets = A.returns(gr.node)
-    ctx.check("R1", gr, len(rets) == 1 and A.unparse(rets[0].value) == "packages.AndRestriction(*restrictions, negate=negate)", f"single-negated-conjunction:{A.unparse(rets[-1].value)[:50]}", "a range is ONE conjunction of its parts, negated as a whole",
+    conj = M.one(gr.node, "return packages.AndRestriction(*$parts, negate=negate)")
+    parts = conj["parts"] if conj else None
+    ctx.check("R1", gr, len(rets) == 1 and conj is not None, f"single-negated-conjunction:{'ok' if conj else A.unparse(rets[-1].value)[:50]}", "a range is ONE conjunction of its parts, negated as a whole",
               f"generate_restrict_from_range returns `{A.unparse(rets[-1].value)[:80]}`: something is combined outside the negated conjunction", node=rets[-1])
     sl = [c for c in A.calls(gr.node) if dotted(c.func) == "atom_restricts.SlotDep"]
     ctx.require(len(sl) == 1, "generate_restrict_from_range: SlotDep not found")
     par = getattr(sl[0], "_parent", None)
-    inside = isinstance(par, ast.Call) and A.unparse(par.func) == "restrictions.append" and par.lineno < rets[-1].lineno
+    inside = isinstance(par, ast.Call) and parts is not None and A.unparse(par.func) == f"{parts}.append" and par.lineno < rets[-1].lineno
     ctx.check("R1", gr, inside, "slot-part-of-conjunction", "the slot limit is one of the conjuncts (so `not (range and slot)` for unaffected ranges)",
               "the slot limit is ANDed onto the range AFTER negation: an unaffected range with slot=S becomes `(not range) AND slot == S`, which every package outside slot S fails — such packages are never reported", node=sl[0])
     g_ = next((p for p in A.parents(sl[0]) if isinstance(p, ast.If)), None)
-    ctx.check("R1", gr, g_ is not None and A.unparse(g_.test) == "slot" and g_ in gr.node.body, "slot-for-every-range-kind", "the slot limit applies to every kind of range (it is not nested under one operator's branch)")
-    ctx.check("R1", gr, "slot = str(node.get('slot', '').strip())" in A.unparse(gr.node), "slot-attribute", "the slot comes from the range's slot attribute")
+    slotv = M.one(gr.node, "$slot = str(node.get('slot', '').strip())")
+    ctx.check("R1", gr, g_ is not None and slotv is not None and A.unparse(g_.test) == slotv["slot"] and g_ in gr.node.body, "slot-for-every-range-kind", "the slot limit applies to every kind of range (it is not nested under one operator's branch)")
+    ctx.check("R1", gr, slotv is not None and A.unparse(sl[0].args[0]) == slotv["slot"], "slot-attribute", "the slot comes from the range's slot attribute")
     ctx.floor("R1", 4)
 
     # ---- R2 unaffected / vulnerable combination ----------------------------------------------------------------
     neg_calls = [c for c in A.calls(gi.node) if A.unparse(c.func) == "self.generate_restrict_from_range" and any(k.arg == "negate" and A.is_const(k.value, True) for k in c.keywords)]
     pos_calls = [c for c in A.calls(gi.node) if A.unparse(c.func) == "self.generate_restrict_from_range" and not c.keywords]
-    ctx.check("R2", gi, len(neg_calls) == 1 and isinstance(getattr(neg_calls[0], "_parent", None), (ast.GeneratorExp, ast.ListComp)) and A.unparse(neg_calls[0]._parent.generators[0].iter) == "invuln", "each-unaffected-negated", "every unaffected range is negated on its own",
+    ctx.check("R2", gi, len(neg_calls) == 1 and isinstance(getattr(neg_calls[0], "_parent", None), (ast.GeneratorExp, ast.ListComp)) and M.has(gi.node, "$u = pkg_node.findall('unaffected')", {"u": A.unparse(neg_calls[0]._parent.generators[0].iter)}), "each-unaffected-negated", "every unaffected range is negated on its own",
               "the unaffected ranges are no longer negated one by one: `not (U1 and U2)` exempts a package only if it lies in ALL unaffected ranges", node=gi.node)
     fin = A.returns(gi.node)[-1]
-    ctx.check("R2", gi, A.unparse(fin.value) == "packages.KeyedAndRestriction(vuln, *invuln, tag=tag)", f"vuln-and-not-each-unaffected:{A.unparse(fin.value)[:50]}", "entry = vulnerable AND (not U1) AND (not U2) ...",
+    shape = M.one(gi.node, "$neg = ($$g for $x in $u)\n$keep = [$y for $y in $neg if $_]\nreturn packages.KeyedAndRestriction($v, *$keep, tag=tag)")
+    ok_shape = shape is not None and neg_calls and A.contains_node(shape.env["$g"], neg_calls[0])
+    ctx.check("R2", gi, bool(ok_shape), f"vuln-and-not-each-unaffected:{'ok' if ok_shape else A.unparse(fin.value)[:50]}", "entry = vulnerable AND (not U1) AND (not U2) ...",
               f"the entry is built as `{A.unparse(fin.value)[:80]}`", node=fin)
     bad_neg = [c for c in A.calls(gi.node) if (dotted(c.func) or "").endswith(("AndRestriction", "OrRestriction")) and any(k.arg == "negate" for k in c.keywords)]
     ctx.check("R2", gi, not bad_neg, "no-collective-negation", "no conjunction/disjunction of ranges is negated collectively in the entry builder")
     t = A.unparse(gi.node)
-    ctx.check("R2", gi, "vuln = packages.OrRestriction(*vuln_list)" in t and "elif len(vuln) > 1:" in t and len(pos_calls) == 2, "vulnerable-ranges-ored", "several vulnerable ranges are ORed")
-    ctx.check("R2", gi, "if not vuln:\n        return None" in t, "no-vulnerable-no-entry", "an entry without vulnerable ranges flags nothing")
+    ctx.check("R2", gi, M.has(gi.node, "if not $v:\n    return None\nelif len($v) > 1:\n    $l = [self.generate_restrict_from_range($x) for $x in $v]\n    $v = packages.OrRestriction(*$l)") and len(pos_calls) == 2, "vulnerable-ranges-ored", "several vulnerable ranges are ORed")
+    ctx.check("R2", gi, M.has(gi.node, "$v = list(pkg_node.findall('vulnerable'))\nif not $v:\n    return None"), "no-vulnerable-no-entry", "an entry without vulnerable ranges flags nothing")
     ctx.floor("R2", 5)
 
     # ---- R3 arch condition ------------------------------------------------------------------------------------------
@@ -53,15 +59,18 @@ def run(ctx):
     sig = P.func("pkgcore.restrictions.values", "ContainmentMatch.__init__").params()
     ctx.check("R3", gi, sig[:4] == ["self", "vals", "match_all", "negate"], f"callee-signature:{sig[1:4]}", "ContainmentMatch(vals, match_all=False, negate=False)")
     c = cm[0]
-    ok = len(c.args) == 1 and not isinstance(c.args[0], ast.Starred) and A.unparse(c.args[0]) == "arch"
+    archv = M.one(gi.node, "$arch = pkg_node.get('arch')")
+    ctx.require(archv is not None, "generate_intersects_from_pkg_node: read of the arch attribute not found")
+    an = archv["arch"]
+    ok = len(c.args) == 1 and not isinstance(c.args[0], ast.Starred) and A.unparse(c.args[0]) == an
     ctx.check("R3", gi, ok, f"arch-is-one-collection-arg:{A.unparse(c)[:50]}", "the arch tuple is passed as the single `vals` argument",
               f"`{A.unparse(c)}` spreads the arches over ContainmentMatch's positional parameters (vals, match_all, negate): with two arches only the first is honoured, with three the test is negated, with more it is a TypeError that iter_vulnerabilities swallows", node=c)
     kw = {k.arg: A.unparse(k.value) for k in c.keywords}
     ctx.check("R3", gi, kw.get("match_all", "False") == "False" and kw.get("negate", "False") == "False", f"any-of-not-negated:{kw}", "any one of the named arches suffices; not negated")
     par = getattr(c, "_parent", None)
     ctx.check("R3", gi, isinstance(par, ast.Call) and dotted(par.func) == "packages.PackageRestriction" and A.try_literal(par.args[0]) == "keywords", "matched-on-keywords", "the arches are looked for in the package's keywords")
-    ctx.check("R3", gi, "if not arch or '*' in arch:\n            arch = None" in t and "arch = tuple(str(arch.strip()).split())" in t, "star-means-any-arch", "arch '*' (or empty) puts no arch condition")
-    ctx.check("R3", gi, "if arch is not None:\n        vuln = packages.AndRestriction(vuln, packages.PackageRestriction(" in t, "arch-anded-to-vulnerable", "the arch condition is ANDed to the vulnerable part")
+    ctx.check("R3", gi, M.has(gi.node, "if $arch is not None:\n    $arch = tuple(str($arch.strip()).split())\n    if not $arch or '*' in $arch:\n        $arch = None", archv.env), "star-means-any-arch", "arch '*' (or empty) puts no arch condition")
+    ctx.check("R3", gi, M.has(gi.node, "if $arch is not None:\n    $v = packages.AndRestriction($v, packages.PackageRestriction('keywords', $_))", archv.env), "arch-anded-to-vulnerable", "the arch condition is ANDed to the vulnerable part")
     ctx.floor("R3", 6)
 
     # ---- R4 operators ------------------------------------------------------------------------------------------------------
@@ -70,19 +79,26 @@ def run(ctx):
     tbl = A.try_literal(ot, default=None) if ot is not None else None
     ctx.check("R4", C, tbl == {"ge": ">=", "gt": ">", "lt": "<", "le": "<=", "eq": "="}, f"op-table:{tbl}", "ge/gt/lt/le/eq -> >=, >, <, <=, =", f"GLSA operator table is {tbl}", node=C.node)
     tg = A.unparse(gr.node)
-    ctx.check("R4", gr, "restrict = self.op_translate[op.lstrip('r')]" in tg and "raise ValueError(f'unknown operator: {op!r}')" in tg, "r-prefix-stripped-unknown-rejected", "r-forms use the same comparison; unknown operators are rejected")
-    ctx.check("R4", gr, "if op.startswith('r'):" in tg and "restrictions.append(atom_restricts.VersionMatch('~', base.version))" in tg, "r-forms-same-version", "r-forms additionally require the same version (any revision)")
-    ctx.check("R4", gr, "elif op in ('rle', 'rge') and (not base.revision):" in tg and "atom_restricts.VersionMatch('=' if op == 'rle' else '~', base.version)" in tg, "r0-special-cases", "rle -r0 is '= version', rge -r0 is '~ version'")
-    ctx.check("R4", gr, "if op == 'rlt' and (not base.revision):" in tg and "guaranteed empty set" in tg, "rlt-r0-empty", "rlt -r0 is rejected as an empty range")
-    ctx.check("R4", gr, "atom_restricts.VersionMatch(restrict, base.version, rev=base.revision)" in tg, "full-version-compare", "plain forms compare the full version (with revision)")
-    ctx.check("R4", gr, "if op != 'eq':\n            raise ValueError(f'glob cannot be used with {op} ops')" in tg, "glob-eq-only", "a trailing * is accepted for eq only")
-    ctx.check("R4", gr, "if node.text is None:\n        raise ValueError" in tg, "missing-version-rejected", "a range without version is rejected")
+    opm = M.one(gr.node, "$op = str(node.get('range').strip())")
+    ctx.require(opm is not None, "generate_restrict_from_range: read of the range attribute not found")
+    E = dict(opm.env)
+    tr = M.one(gr.node, "try:\n    $cmp = self.op_translate[$op.lstrip('r')]\nexcept KeyError:\n    raise ValueError($_)", E)
+    ctx.check("R4", gr, tr is not None, "r-prefix-stripped-unknown-rejected", "r-forms use the same comparison; unknown operators are rejected")
+    E2 = dict(tr.env) if tr else dict(E)
+    if parts:
+        E2["parts"] = parts
+    ctx.check("R4", gr, M.has(gr.node, "if $op.startswith('r'):\n    $parts.append(atom_restricts.VersionMatch('~', $base.version))", E2), "r-forms-same-version", "r-forms additionally require the same version (any revision)")
+    ctx.check("R4", gr, M.has(gr.node, "if $op in ('rle', 'rge') and (not $base.revision):\n    $parts.append(atom_restricts.VersionMatch('=' if $op == 'rle' else '~', $base.version))", E2), "r0-special-cases", "rle -r0 is '= version', rge -r0 is '~ version'")
+    ctx.check("R4", gr, M.has(gr.node, "if $op == 'rlt' and (not $base.revision):\n    raise ValueError($_)", E2), "rlt-r0-empty", "rlt -r0 is rejected as an empty range")
+    ctx.check("R4", gr, M.has(gr.node, "$parts.append(atom_restricts.VersionMatch($cmp, $base.version, rev=$base.revision))", E2), "full-version-compare", "plain forms compare the full version (with revision)")
+    ctx.check("R4", gr, M.has(gr.node, "if $glob:\n    if $op != 'eq':\n        raise ValueError($_)", E2), "glob-eq-only", "a trailing * is accepted for eq only")
+    ctx.check("R4", gr, M.has(gr.node, "if node.text is None:\n    raise ValueError($_)"), "missing-version-rejected", "a range without version is rejected")
     ctx.floor("R4", 8)
 
     # ---- R5 glob kind ---------------------------------------------------------------------------------------------------------
     gl = [c for c in A.calls(gr.node) if dotted(c.func) in ("values.StrGlobMatch", "values.StrRegex")]
     ctx.check("R5", gr, len(gl) == 1, f"glob-site:{len(gl)}", "one matcher is built for the eq-glob")
-    if gl and A.unparse(gl[0].args[0]) == "base.fullver":
+    if gl and M.pat("values.StrGlobMatch($b.fullver)").matches(gl[0]):
         ctx.fail("R5", gr, "glob-raw-prefix", "an eq range ending in * is matched with StrGlobMatch(base.fullver), a raw string prefix of the full version: `eq 1.2*` also flags 1.20 / 1.21, which are not in the 1.2 component family", node=gl[0])
     else:
         ctx.ob("R5", gr, "the eq-glob is no longer a raw string prefix match")
